@@ -1,6 +1,8 @@
 """C01 edit distance: forwarding (G5/G1), mode table (G13), batch independence (G17)."""
 from __future__ import annotations
 
+from sa.astutil import under_flag as _uflag
+
 import ast
 
 from rules import fwd as R_fwd
@@ -42,13 +44,13 @@ def run(ctx: Ctx):
            f"normalisation divides by {[u(n.value.right) for n in divs]}; expected the reference length in both the "
            f"final and the per-prefix form", rel, f.line, sample=[u(n) for n in divs])
     col.ob("G16", "S2", f"{rel}::_string_matching::norm-only-on-request",
-           all(any(u(t) == "norm" and pol for t, pol in guards_of(pm, n)) for n in divs),
+           all(__import__("sa.astutil", fromlist=["under_flag"]).under_flag(guards_of(pm, n), "norm", True) for n in divs),
            "a division by the reference length happens without norm=True", rel, f.line)
     # lengths: include_eos adds exactly one, taken back when the sequence has no eos
     plus = [n for n in own_nodes(f.node) if isinstance(n, ast.Assign) and u(n.value) in (f"{RL} + 1", f"{HL} + 1")
             and u(n.targets[0]) == u(n.value.left)]
     col.ob("G16", "S2", f"{rel}::_string_matching::include-eos-adds-one", sorted(u(n.targets[0]) for n in plus) == sorted([HL, RL])
-           and all(any(u(t) == "include_eos" and pol for t, pol in guards_of(pm, n)) for n in plus),
+           and all(_uflag(guards_of(pm, n), "include_eos", True) for n in plus),
            "include_eos does not add exactly one to both the reference and the hypothesis lengths", rel, f.line)
     # ---- S4 prefix form: the padding value is the last thing written -------------------------------------------
     from sa.defuse import ReachingDefs
@@ -56,7 +58,7 @@ def run(ctx: Ctx):
     rd = ReachingDefs(f.node)
     LAYOUT = {"t", "transpose", "contiguous", "permute", "clone"}
     rets = [n for n in own_nodes(f.node) if isinstance(n, ast.Return) and n.value is not None
-            and any(u(t) == "return_prf_dsts" and pol for t, pol in guards_of(pm, n))]
+            and _uflag(guards_of(pm, n), "return_prf_dsts", True)]
     if not rets:
         raise AnalysisError("C01: the per-prefix return of _string_matching was not found")
     fills, bad = [], []
